@@ -949,7 +949,7 @@ func c09Big(kind string, res *c09Res) string {
 }
 
 func runC09(c *Ctx) int {
-	maxLen := c.Pick(7, 9)
+	maxLen := c.Pick(7, 8)
 	type job struct{ a c09Args }
 	var jobs []job
 	for _, kind := range backends {
